@@ -256,8 +256,13 @@ def _hier(pdk, depth, share, twice, form):
             hp.register(P); hp.compile(m)                      # the only registered PDK is the default
         elif form == 2:
             hp.register(P); hp.register(pdkmod("sample" if pdk != "sample" else "asap7")); hp.compile(m, pdk=P.__name__)
-        else:
+        elif form == 3:
             hp.compile(m, pdk=P)                                # by module
+        else:
+            # another PDK is registered AND is the default; the request names this one explicitly (4: by name, 5: by module)
+            O = pdkmod("sample" if pdk != "sample" else "asap7")
+            hp.register(P); hp.register(O); hp.set_default(O)
+            hp.compile(m, pdk=P.__name__ if form == 4 else P)
         if twice:
             P.compile(m)
     except BAD as ex:
@@ -268,6 +273,12 @@ def _hier(pdk, depth, share, twice, form):
     probs = check_package(pkg)
     if probs:
         return _fail(f"{pdk}: compiled hierarchy not valid: {probs[0]}")
+    if form != 0:
+        # however the PDK was named, the result is what that PDK's own compile() makes of the same design
+        m2 = build(top)
+        P.compile(m2)
+        if h.to_proto(m2).SerializeToString(deterministic=True) != pkg.SerializeToString(deterministic=True):
+            return _fail(f"{pdk}: hdl21.pdk.compile form {form} differs from {pdk}'s own compile()")
     after, al = pkg_nets(pkg, with_params=False)
     if before != after:
         return _fail(f"{pdk}: connectivity changed by compilation")
@@ -366,13 +377,13 @@ def model(pi, tb, idx, sized, mult):
         return _model(PDKS[pi], TABLES[tb], idx, sized, mult)
 
 
-@harness("C15", also=("C06",), args="pi: int, depth: int, share: bool, twice: bool, form: int", pre=["0 <= pi <= 3", "0 <= depth <= 1", "0 <= form <= 3"],
+@harness("C15", also=("C06",), args="pi: int, depth: int, share: bool, twice: bool, form: int", pre=["0 <= pi <= 3", "0 <= depth <= 1", "0 <= form <= 5"],
          tiers={"quick": {"timeout": 170, "parts": parts_over("pi", range(4))}}, sample=(0, 1, True, True, 3),
-         bounds="a 3-level hierarchy with shared sub-modules, generic Mos instances at every level next to ideal primitives and an external module; 4 PDKs; compile directly / as the default PDK / by name with two PDKs registered / by module; once or twice: leaf-level connectivity, instance names and non-mapped instances unchanged, equal parameters give one call object, package closed, netlists emit",
+         bounds="a 3-level hierarchy with shared sub-modules, generic Mos instances at every level next to ideal primitives and an external module; 4 PDKs; compile directly / as the default PDK / by name with two PDKs registered / by module / by name or module while ANOTHER registered PDK is the default; every indirect form must equal the PDK's own compile(); once or twice: leaf-level connectivity, instance names and non-mapped instances unchanged, equal parameters give one call object, package closed, netlists emit",
          generalises="shape / registry selectors (solver-enumerated)", outside="")
 def compile_hier(pi, depth, share, twice, form):
     P = env.pick
-    pi, depth, form = P(pi, 0, 3), P(depth, 0, 1), P(form, 0, 3)
+    pi, depth, form = P(pi, 0, 3), P(depth, 0, 1), P(form, 0, 5)
     share, twice = bool(share), bool(twice)
     with env.notrace():
         return _hier(PDKS[pi], depth, share, twice, form)
